@@ -285,7 +285,7 @@ func validatorPairCases(tier string) []pairCase {
 			atoms = append(atoms, r+a)
 		}
 	}
-	atoms = append(atoms, "required", "email", "omitempty", "dive", "oneof=a b a", "oneof=2 1 2", "enum=a|b|a")
+	atoms = append(atoms, "required", "email", "omitempty", "dive", "oneof=a b a", "oneof=2 1 2", "enum=a|b|a", "oneof=' ' , ;", "oneof='a b' 'c'", "oneof='")
 	kinds := []struct{ name, goType string }{{"string", "string"}, {"int", "int"}, {"[]string", "[]string"}}
 	if tier == "thorough" {
 		kinds = append(kinds, struct{ name, goType string }{"float64", "float64"}, struct{ name, goType string }{"*string", "*string"})
@@ -665,7 +665,7 @@ func Main(tier, replay string) {
 		run.Sample(map[string]any{"id": inputs[0].ID, "features": inputs[0].Feat})
 		run.Sample(map[string]any{"id": inputs[len(inputs)-1].ID, "features": inputs[len(inputs)-1].Feat})
 	}
-	run.Bound = fmt.Sprintf("%d inputs: %d type shapes x %d usage sites; malformed annotation lines x positions; 18 validator rules x 10 argument forms x kinds x sites and every ordered pair of 43 (rule, argument) atoms on string/int/[]string fields and query parameters under both OpenAPI versions (packed, bisected on any non-zero exit); configuration mutations (truncations, documents of the wrong JSON kind, every section/field set to each JSON kind or deleted, hostile paths/templates); x commands {spec-and-routes, spec, routes, dump graph, bare root, spec as 3.1.0} where applicable", len(inputs), len(shapes()), len(sites))
+	run.Bound = fmt.Sprintf("%d inputs: %d type shapes x %d usage sites; malformed annotation lines x positions; 18 validator rules x 10 argument forms x kinds x sites and every ordered pair of 46 (rule, argument) atoms on string/int/[]string fields and query parameters under both OpenAPI versions (packed, bisected on any non-zero exit); configuration mutations (truncations, documents of the wrong JSON kind, every section/field set to each JSON kind or deleted, hostile paths/templates); x commands {spec-and-routes, spec, routes, dump graph, bare root, spec as 3.1.0} where applicable", len(inputs), len(shapes()), len(sites))
 	run.Rule = "state = one (input project/config, command); transition = one run of the real CLI binary in a fresh process; validated = runs whose exit status, output (panic traces), wall time and artifacts were judged"
 	run.Assumptions = []string{"horizon 90 s (re-run with 180 s before a timeout counts); the median run takes well under 2 s", "a [FATAL] log line alone is not a failure"}
 	os.RemoveAll(scratch)
